@@ -251,7 +251,7 @@ def header_bytes(exp, mantissa_byte, min_value, reserved=False, lowbits=0):
 
 
 def prove(C, H, header, rsizes, scale, min_value, digits, sec, nonces, forged, extra=b"",
-          spare_bits=0, trailing=b"", xplus=(), e0_override=None):
+          spare_bits=0, trailing=b"", xplus=(), e0_override=None, allow_inf_last=False):
     """Build a proof string.  Nothing is checked against the documented parameter ranges: the caller chooses everything.
 
     C, H          commitment / generator points
@@ -261,6 +261,7 @@ def prove(C, H, header, rsizes, scale, min_value, digits, sec, nonces, forged, e
     nonces[i]     ring nonces;  forged: flat list of scalars for the other members (entries at real positions ignored)
     spare_bits    OR-ed into the unused high bits of the last sign byte;  trailing: appended bytes
     xplus         ring indices whose digit commitment is emitted (and hashed) as x + p  (needs x + p < 2^256)
+    allow_inf_last  go on when the implicit last digit commitment C - min*H - sum(C_i) is the point at infinity
     -> bytes or None (a degenerate point / challenge occurred)"""
     rings = len(rsizes)
     first, xs, signs = [], [], []
@@ -272,7 +273,7 @@ def prove(C, H, header, rsizes, scale, min_value, digits, sec, nonces, forged, e
         first.append(Ci)
         acc = ec.add(acc, Ci)
     last = ec.sub(C, acc)
-    if last is None:
+    if last is None and not allow_inf_last:
         return None
     first.append(last)
     pubs_first = []
